@@ -209,7 +209,7 @@ def execute(trace):
     ref_ok = True
     try:
         graphs = cli_pipeline.run(seq, model, {kk: v for kk, v in opts.items()
-                                                if kk in ('canonicalize_roles', 'reify_edges')})
+                                                if kk in ('canonicalize_roles', 'reify_edges', 'triples')})
     except Exception as e:   # the library pipeline itself failed: nothing to compare with
         graphs = []
         ref_ok = False
